@@ -96,6 +96,7 @@ package avro
 // ---------------------------------------------------------------- int.go
 
 //@ func (IntCodec[T]).Read for T in int16,int32,int64
+//@   props C05, C03
 //@   implements Codec.Read
 //@   let i0 := r.i, n := len(r.buf)
 //@   requires wfRB(r) && p != nil && rawalloc(p, sizeof(T))
@@ -130,6 +131,7 @@ package avro
 // ---------------------------------------------------------------- fixed.go
 
 //@ func (fixedCodec).Read
+//@   props C05, C03
 //@   implements Codec.Read
 //@   let i0 := r.i, n := len(r.buf)
 //@   requires wfRB(r) && f.Size >= 0 && (f.Size > 0 ==> p != nil) && rawalloc(p, f.Size)
@@ -164,6 +166,7 @@ package avro
 // ---------------------------------------------------------------- float.go
 
 //@ func (floatCodec[T]).Read for T in float32,float64
+//@   props C05, C03
 //@   implements Codec.Read
 //@   let i0 := r.i, n := len(r.buf)
 //@   requires wfRB(r) && p != nil && rawalloc(p, sizeof(T))
@@ -195,7 +198,7 @@ package avro
 //@   exactemits
 
 //@ func (Float32DoubleCodec).Read
-//@   props C06
+//@   props C06, C05, C03
 //@   implements Codec.Read
 //@   let i0 := r.i, n := len(r.buf)
 //@   requires wfRB(r) && p != nil && rawalloc(p, 4)
@@ -220,6 +223,7 @@ package avro
 // ---------------------------------------------------------------- bool.go
 
 //@ func (BoolCodec).Read
+//@   props C05, C03
 //@   implements Codec.Read
 //@   let i0 := r.i, n := len(r.buf)
 //@   requires wfRB(r) && p != nil && rawalloc(p, 1)
@@ -274,6 +278,7 @@ package avro
 //@ spec lenAt(b bytes, i0 int, e int) int64 = unzz(pv(b, i0, e - i0))
 
 //@ func (BytesCodec).Read
+//@   props C05, C03
 //@   implements Codec.Read
 //@   let i0 := r.i, n := len(r.buf), e := vend(r.buf, r.i), l := vval(r.buf, r.i)
 //@   requires wfRB(r) && ptr != nil && rawalloc(ptr, 24)
@@ -307,6 +312,7 @@ package avro
 //@   exactemits
 
 //@ func (StringCodec).Read
+//@   props C05, C03
 //@   implements Codec.Read
 //@   let i0 := r.i, n := len(r.buf), e := vend(r.buf, r.i), l := vval(r.buf, r.i)
 //@   requires wfRBS(r) && ptr != nil && rawalloc(ptr, 16)
@@ -409,6 +415,7 @@ package avro
 //@      cend(b, i) = (b[i] >> 1) == this.nonNull ? vend(b, i+1) + int(vval(b, i+1)) : i+1 ; wfval(p) = rdable(p, 16) && wfslice(memstr(p))
 
 //@ func (*unionOneAndNullCodec).Read
+//@   props C05, C03
 //@   implements Codec.Read
 //@   let i0 := r.i, b0 := r.buf, sel := r.buf[r.i]
 //@   requires wfRBS(r) && wfc(asiface(u)) && typed(asiface(u)) && (dsz(u.codec) > 0 ==> p != nil) && rawalloc(p, dsz(u.codec)) && zeroed(p, dsz(u.codec))
@@ -435,6 +442,7 @@ package avro
 //@   modifies w.buf, BH[w.buf]
 
 //@ func (*unionNullString).Read
+//@   props C05, C03
 //@   implements Codec.Read
 //@   let i0 := r.i, b0 := r.buf, sel := r.buf[r.i]
 //@   requires wfRBS(r) && u != nil && u.nonNull <= 1 && p != nil && rawalloc(p, 16)
@@ -482,7 +490,7 @@ package avro
 //@      cend(b, i) = cend(this.Codec, b, i) ; wfval(p) = rdable(p, 8) && (mem64(p) == 0 || wfval(this.Codec, ptr(mem64(p))))
 
 //@ func (*PointerCodec).Read
-//@   props C06
+//@   props C06, C05, C03
 //@   implements Codec.Read
 //@   let i0 := r.i, b0 := r.buf
 //@   requires wfRBS(r) && wfc(asiface(c)) && typed(asiface(c)) && p != nil && rawalloc(p, 8) && zeroed(p, 8)
@@ -544,7 +552,7 @@ package avro
 //@   loop 1 decreases len(rc.fields) - rangeindex
 
 //@ func (*recordCodec).Read
-//@   props C06
+//@   props C06, C05, C03
 //@   implements Codec.Read
 //@   let i0 := r.i, b0 := r.buf, sd0 := r.rb.sData, rb0 := r.rb
 //@   requires wfRBS(r) && wfc(asiface(rc)) && (recsz(rc) > 0 ==> p != nil) && rawalloc(p, recsz(rc)) && zeroed(p, recsz(rc))
@@ -847,6 +855,7 @@ package avro
 //@      && zeroed(uintptr(hD(p)) + uintptr(hL(p) * sz), (hC(p) - hL(p)) * sz)
 
 //@ func (*arrayCodec).resizeSlice
+//@   props C05, C03
 //@   let sz := isz(rc)
 //@   requires rc != nil && rc.itemType != nil && data(rc.itemType) != nil && 0 <= sz && sz < 1<<22 && 0 <= in.Len && in.Len <= in.Cap && in.Cap <= 2147483647 && 0 <= len && in.Len + len <= 2147483647 \
 //@        && (in.Cap > 0 ==> in.Data != nil && rawalloc(in.Data, in.Cap * sz)) && zeroed(uintptr(in.Data) + uintptr(in.Len * sz), (in.Cap - in.Len) * sz)
@@ -861,7 +870,7 @@ package avro
 //@   uses umul_mono(len, in.Len + len, sz)
 
 //@ func (*arrayCodec).Read
-//@   props C06
+//@   props C06, C05, C03
 //@   implements Codec.Read
 //@   let i0 := r.i, b0 := r.buf, sd0 := r.rb.sData, rb0 := r.rb, sz := isz(rc)
 //@   requires wfRBS(r) && wfc(asiface(rc)) && typed(asiface(rc)) && p != nil && rawalloc(p, 24) && zeroed(p, 24)
@@ -1261,7 +1270,7 @@ package avro
 
 //@ func (*unionCodec).Read
 //@   implements Codec.Read
-//@   props C06
+//@   props C06, C05, C03
 //@   let i0 := r.i, b0 := r.buf
 //@   requires wfRBS(r) && wfc(asiface(u)) && typed(asiface(u)) && (udsz(u) > 0 ==> p != nil) && rawalloc(p, udsz(u)) && zeroed(p, udsz(u))
 //@   ensures [C03,C06] (vval(b0, i0) < 0 || vval(b0, i0) >= int64(len(u.codecs))) ==> err != nil
